@@ -76,6 +76,11 @@ TARGETED = [
     "a { b: adjust-color(red, $zz: 1, $hue: 2, $aa: 3); }",
     "@function f($a, $args...) {@return $a} a { b: f($zz: 1, $aa: 2); }",
     "@mixin m($args...) { x: length($args); } a { @include m($zz: 1, $aa: 2); }",
+    # selectors that are structurally equal but spelled differently (escapes): containers keyed by selector identity
+    # vs. structure show up as process-dependent output
+    ".foo {a: b} \\.foo {c: d} \\2E foo {e: f} .bar {@extend \\02e foo}",
+    ".a\\62 {x: y} .ab {z: w} .c {@extend .ab} .d {@extend .a\\62 }",
+    ".zz, .\\7a z {x: y} .aa {@extend .zz} .mm {@extend .\\7a z} .nn {@extend .z\\7a }",
     # names whose `_` and `-` spellings must stay interchangeable (and strings where they must stay distinct), whatever
     # raw spellings earlier compilations on the thread have interned
     "@function grid-gap($x) { @return $x * 2; } a { b: grid_gap(2px); c: grid-gap(1px); d: function-exists(\"grid_gap\"); }",
